@@ -224,8 +224,11 @@ impl RoutingThread {
                     .unwrap();
             }
             Message::Block(_) => {
-                error!("received block message");
-                unreachable!();
+                // blocks are fetched over http, never pushed as messages. a peer sending one is ignored
+                warn!(
+                    "ignoring unexpected block message from peer : {:?}",
+                    peer_index
+                );
             }
         }
     }
